@@ -310,9 +310,29 @@ func errBranch(cond ssa.Value, vals map[ssa.Value]bool, taken bool) string {
 
 // certainlyNonNilError: a fresh error (errors.New / fmt.Errorf) or a load of an exported sentinel variable.
 func certainlyNonNilError(v ssa.Value) bool {
+	return certainlyNonNilErrorRec(v, 0)
+}
+
+func certainlyNonNilErrorRec(v ssa.Value, depth int) bool {
 	switch x := v.(type) {
 	case *ssa.Call:
-		return isCallTo(&x.Call, "errors.New", "fmt.Errorf")
+		if isCallTo(&x.Call, "errors.New", "fmt.Errorf") {
+			return true
+		}
+		// a helper that builds the error: every return of it is a non-nil error
+		if g := staticCallee(&x.Call); g != nil && len(g.Blocks) > 0 && depth < 2 && g.Signature.Results().Len() == 1 && g.Pkg != nil && strings.HasPrefix(g.Pkg.Pkg.Path(), "github.com/clbanning/mxj") {
+			all, n := true, 0
+			eachInstr(g, func(b *ssa.BasicBlock, in ssa.Instruction) {
+				if ret, ok := in.(*ssa.Return); ok {
+					n++
+					if !certainlyNonNilErrorRec(ret.Results[0], depth+1) {
+						all = false
+					}
+				}
+			})
+			return all && n > 0
+		}
+		return false
 	case *ssa.UnOp:
 		if g := globalOf(x); g != nil {
 			return isErrorType(x.Type()) && (strings.HasSuffix(g.Name(), "Error") || strings.HasPrefix(g.Name(), "Err") || g.Name() == "NoRoot" || g.Name() == "NO_ROOT" || g.Name() == "EOF")
